@@ -42,6 +42,13 @@ impl BigUint {
         ensures self.val() == 0 ==> r@.len() == 0,
                 0 < self.val() <= u64::MAX ==> r@.len() == 1 && r@[0] as nat == self.val(),
     { unimplemented!() }
+    // A2: to_u32_digits = minimal little-endian base-2^32 digits (a value that needs two of them is NOT its first digit)
+    #[verifier::external_body]
+    pub fn to_u32_digits(&self) -> (r: Vec<u32>)
+        ensures self.val() == 0 ==> r@.len() == 0,
+                0 < self.val() <= u32::MAX ==> r@.len() == 1 && r@[0] as nat == self.val(),
+                self.val() > u32::MAX ==> r@.len() >= 2 && r@[0] as nat == self.val() % 0x1_0000_0000,
+    { unimplemented!() }
 }
 impl core::ops::Rem for BigUint {
     type Output = BigUint;
